@@ -32,7 +32,12 @@ RULE = (
     "cdf, predict_quantiles for every x2_max, the unrestricted window among "
     "them) must not alias the object's arrays or another result; all of "
     "them are overwritten in place, the calls are repeated and must give "
-    "identical answers with unchanged object state.  Oracle = long-double "
+    "identical answers with unchanged object state.  Observations are "
+    "given as float64 / float32 / int16 / int32 / int64 arrays (values "
+    "representable), C-ordered, Fortran-ordered or as strided view (also "
+    "the database y); the quantile fractions come in drawn order "
+    "(unordered, ascending or descending, with repeats): result[j] must be "
+    "the tau_j quantile and permuting the request permutes the result.  Oracle = long-double "
     "weighted sums over the whole database.  Non-trivial = at least 2 "
     "entries with weight > 1e-12 and some x2_max >= 0 that cuts at least "
     "one entry.  Distinct = distinct case hash."
@@ -60,6 +65,10 @@ ASSUMPTIONS = [
     "an entry may be missing from the chi-square window only if its exact "
     "chi-square is > x2_max (also for databases stored as float32, whose "
     "projections typhon computed in single precision before its fix)",
+    "database and observation types are combined so that NumPy's common "
+    "type for y_database - y_obs is float64 or a 32/64-bit integer (e.g. "
+    "float32 with float32 or int16 would be subtracted in single "
+    "precision)",
     "the database may be stored as float64, float32 or integer arrays (y "
     "and x independently); observations are float64 and in general not "
     "representable in the storage type; the oracle uses the exact stored "
@@ -166,6 +175,28 @@ def bmci_cases(draw, large=600):
             nd = max(np.linalg.norm(d), 0.1)
             o = y[i] + L @ (d / nd * draw(st.floats(36.0, 39.5)))
         obs.append({"kind": kind, "y": [float(v) for v in o]})
+    # storage type of the observations (counts, single precision)
+    odtype = draw(st.sampled_from(["float64"] * 4 + ["float32", "int16",
+                                                     "int32", "int64"]))
+    if odtype.startswith("int"):
+        for o in obs:
+            o["y"] = [float(np.round(v)) for v in o["y"]]
+        big = max(abs(v) for o in obs for v in o["y"])
+        if big > 2e9:
+            odtype = "int64"
+        elif big > 3e4 and odtype == "int16":
+            odtype = "int32"
+    # y_database - y_obs must be exact: NumPy evaluates it in the common
+    # type, which has to be float64 (or a wide enough integer)
+    common = np.result_type(ydtype, odtype)
+    if common != np.float64 and not (common.kind == "i"
+                                     and common.itemsize >= 4):
+        odtype = "float64" if not odtype.startswith("int") else "int64"
+        if np.result_type(ydtype, odtype) == np.float32:
+            odtype = "float64"
+    if odtype == "float32":
+        for o in obs:
+            o["y"] = [float(np.float32(v)) for v in o["y"]]
     x2 = [-1.0, 0.0,
           draw(st.one_of(st.floats(0.01, 5.0, allow_nan=False),
                          st.sampled_from([0.5, 1.0, 2.0]))),
@@ -177,14 +208,22 @@ def bmci_cases(draw, large=600):
         a += 1
     b = draw(st.integers(0, 10 ** 6))
     perm = [(a * i + b) % n for i in range(n)]
-    taus = sorted(draw(st.lists(st.one_of(
+    # quantile fractions in the order of the draw (unordered, repeats)
+    taus = draw(st.lists(st.one_of(
         st.floats(0.0, 1.0, allow_nan=False),
         st.sampled_from([0.0, 1.0, 0.5, 0.05, 0.95])),
-        min_size=1, max_size=7)))
+        min_size=1, max_size=7))
+    order = draw(st.sampled_from(["drawn", "drawn", "ascending",
+                                  "descending"]))
+    if order != "drawn":
+        taus = sorted(taus, reverse=(order == "descending"))
     return {"n": n, "m": m, "y": y.tolist(), "x": x.tolist(),
             "S": S.tolist(), "S_structure": Sd["structure"], "obs": obs,
             "x2": x2, "perm": perm, "taus": taus, "xkind": xkind,
-            "dup": dup, "spread": spread, "ydtype": ydtype, "xdtype": xdtype}
+            "dup": dup, "spread": spread, "ydtype": ydtype, "xdtype": xdtype,
+            "odtype": odtype,
+            "layout": {k: draw(st.sampled_from(["C", "C", "F", "strided"]))
+                       for k in ("y", "obs")}}
 
 
 # --------------------------------------------------------------------------
@@ -289,6 +328,17 @@ def nan_status(chi, delta):
 # --------------------------------------------------------------------------
 # the check
 # --------------------------------------------------------------------------
+def in_layout(a, layout):
+    """the same array Fortran-ordered or as a strided view of a larger one"""
+    if layout == "F":
+        return np.asfortranarray(a)
+    if layout == "strided" and a.ndim == 2:
+        big = np.zeros((2 * a.shape[0], 2 * a.shape[1] + 1), dtype=a.dtype)
+        big[::2, 1::2] = a
+        return big[::2, 1::2]
+    return np.ascontiguousarray(a)
+
+
 def history_pass(ctx, bm, obs_all, taus, x2_list, tag):
     """One object, several calls: every returned array is an independent
     copy (no aliasing of the object's state or of another result), and after
@@ -342,7 +392,8 @@ def history_pass(ctx, bm, obs_all, taus, x2_list, tag):
 def check_instance(ctx, BMCI, y, x, S, case, tag, full, ytyped=None,
                    xtyped=None):
     n, m = y.shape
-    bm = BMCI((y if ytyped is None else ytyped).copy(),
+    bm = BMCI(in_layout((y if ytyped is None else ytyped).copy(),
+                        (case.get("layout") or {}).get("y", "C")),
               (x if xtyped is None else xtyped).copy(), S.copy())
     # the database is kept as (y_i, x_i) pairs
     got = np.hstack([np.asarray(bm.y, dtype=float).reshape(n, m),
@@ -359,28 +410,42 @@ def check_instance(ctx, BMCI, y, x, S, case, tag, full, ytyped=None,
     xmin, xmax = float(x.min()), float(x.max())
     rng = xmax - xmin
     obs_all = np.array([o["y"] for o in case["obs"]], dtype=float)
+    # what typhon gets: the same values in the storage type / memory layout
+    obs_arg = in_layout(obs_all.astype(case.get("odtype", "float64")),
+                        (case.get("layout") or {}).get("obs", "C"))
+    if not np.array_equal(obs_arg.astype(float), obs_all):
+        raise AssertionError("generator: observation not representable")
     taus = np.array(case["taus"], dtype=float)
+    tau_order = np.argsort(taus, kind="stable")
     any_nontrivial = False
 
     for x2 in case["x2"]:
-        xs_pred, sig_pred = bm.predict(obs_all, x2)
+        xs_pred, sig_pred = bm.predict(obs_arg, x2)
         ctx.check(np.shape(xs_pred) == (len(obs_all),)
                   and np.shape(sig_pred) == (len(obs_all),), "predict/shape",
                   lambda: "%r %r" % (np.shape(xs_pred), np.shape(sig_pred)))
         if x2 < 0 and full:
-            d1, d2 = bm.predict(obs_all)          # default = unrestricted
+            d1, d2 = bm.predict(obs_arg)          # default = unrestricted
             ctx.check(np.array_equal(d1, xs_pred, equal_nan=True)
                       and np.array_equal(d2, sig_pred, equal_nan=True),
                       "predict/default-is-not-unrestricted", "")
         if full:
-            qs_all = bm.predict_quantiles(obs_all, taus, x2)
+            qs_all = bm.predict_quantiles(obs_arg, taus, x2)
             ctx.check(np.shape(qs_all) == (len(obs_all), taus.size),
                       "quantiles/shape", lambda: repr(np.shape(qs_all)))
+            if x2 < 0 and taus.size > 1:
+                # result[j] belongs to taus[j]: permuting taus permutes it
+                qs_sorted = bm.predict_quantiles(obs_arg, taus[tau_order], x2)
+                ctx.check(np.array_equal(np.asarray(qs_all)[:, tau_order],
+                                         qs_sorted, equal_nan=True),
+                          "quantiles/not-in-the-order-of-the-request",
+                          lambda: "taus %r -> %r, sorted taus %r -> %r" % (
+                              taus, qs_all, taus[tau_order], qs_sorted))
         for io, o in enumerate(case["obs"]):
             obs = obs_all[io]
             where = "%s obs#%d(%s) x2_max=%r" % (tag, io, o["kind"], x2)
             chi, delta = orc.chi2(by, obs)
-            i_l, i_u, ws = bm.weights(obs, x2)
+            i_l, i_u, ws = bm.weights(obs_arg[io], x2)
             i_l, i_u = int(i_l), int(i_u)
             ctx.check(0 <= i_l <= i_u <= n and np.size(ws) == i_u - i_l,
                       "weights/window", lambda: "%s: i_l=%r i_u=%r ws %r" % (
@@ -476,7 +541,7 @@ def check_instance(ctx, BMCI, y, x, S, case, tag, full, ytyped=None,
             if not full:
                 continue
             # cdf
-            cx, cF = bm.cdf(obs, x2)
+            cx, cF = bm.cdf(obs_arg[io], x2)
             xs_ref = np.sort(bx[kept])
             ctx.check(np.array_equal(np.asarray(cx, dtype=float).ravel(),
                                      xs_ref), "cdf/x-values", lambda: (
@@ -508,7 +573,8 @@ def check_instance(ctx, BMCI, y, x, S, case, tag, full, ytyped=None,
                     where, cF[last][:10], xs_ref[last][:10],
                     G[last][:10].astype(float), tolF)))
             # quantiles
-            ctx.check(not np.isnan(q).any() and (np.diff(q) >= 0).all()
+            ctx.check(not np.isnan(q).any()
+                      and (np.diff(q[tau_order]) >= 0).all()
                       and q.min() >= xmin - 1e-12 * rng
                       and q.max() <= xmax + 1e-12 * rng,
                       "quantiles/not-monotone-or-out-of-range", lambda: (
@@ -529,7 +595,7 @@ def check_instance(ctx, BMCI, y, x, S, case, tag, full, ytyped=None,
                     "%s: tau=%r -> %r; window x %r with cdf %r" % (
                         where, tau, qv, ux[:12], uG[:12])))
     if full:
-        history_pass(ctx, bm, obs_all, taus, case["x2"], tag)
+        history_pass(ctx, bm, obs_arg, taus, case["x2"], tag)
     return any_nontrivial
 
 
@@ -559,6 +625,20 @@ def check_bmci(case, ctx):
         raise AssertionError("generator: database not representable in its "
                              "storage type")
     ctx.label("y-stored-as-" + ydtype, "x-stored-as-" + xdtype)
+    odtype = case.get("odtype", "float64")
+    ctx.label("obs-given-as-" + odtype)
+    if odtype != "float64":
+        ctx.label("observations-not-float64")
+    lay = case.get("layout") or {}
+    ctx.label("layout-y-" + lay.get("y", "C"),
+              "layout-obs-" + lay.get("obs", "C"))
+    tl = list(case["taus"])
+    if len(tl) > 1:
+        ctx.label("taus-ascending" if tl == sorted(tl) else
+                  "taus-descending" if tl == sorted(tl, reverse=True)
+                  else "taus-unordered")
+        if len(set(tl)) < len(tl):
+            ctx.label("taus-repeated")
     if ydtype != "float64":
         ctx.label("database-not-float64")
         obs = np.array([o["y"] for o in case["obs"]], dtype=float)
